@@ -38,7 +38,7 @@ def tree(p):
 
 
 def collides(sps, path):
-    """known findings F17 / F18: the automatic path function gives textually equal or leaf/node-conflicting paths"""
+    """(repaired defects F17 / F18) the automatic path function gives textually equal or leaf/node-conflicting paths"""
     if path is None or (isinstance(path, str) and "auto" in path):
         seen = {}
         for sp in sps:
@@ -62,7 +62,7 @@ def scenario(seed):
     move = False
     sig = (UNIVERSES.index(sps), kind, PATHS.index(path))
     if collides(sps, path):
-        return None, sig + ("skipped-known-path-collision",)
+        sig = sig + ("colliding-automatic-paths",)      # must be refused before anything is copied, or round-trip exactly (F17/F18 repaired)
     with dir_scratch() as d:
         os.makedirs(d + "/src")
         os.makedirs(d + "/dst")
@@ -145,7 +145,7 @@ def path_checks():
 
 
 def auto_path_collision_probe():
-    """known finding F18: with path=None nobody checks that the schema-based paths are unique (1 vs '1' both give a/1)"""
+    """(repaired defect F18) with path=None nobody checked that the schema-based paths are unique (1 vs '1' both give a/1)"""
     import signac
     import warnings
     warnings.simplefilter("ignore")
@@ -219,6 +219,6 @@ def run(tier="quick", seed=0):
     if z:
         failures.append({"key": "zip:string-prefix", "description": z, "script": ""})
     return {"scope": "11 state point universes chosen to collide textually (1/10/100, 1/1.0/'1', True/'True', prefix keys, nested, heterogeneous) x 6 target kinds x 8 path specs "
-                     "(None, False, format strings incl. {{auto}}, callables); automatic-path collisions (known findings F17/F18) are skipped; plus leaf/node order checks and the zip string-prefix probe",
+                     "(None, False, format strings incl. {{auto}}, callables); colliding automatic paths must be refused up front or round-trip exactly; plus leaf/node order checks and the zip string-prefix probe",
             "evaluations": evals, "distinct_nontrivial": len(distinct), "rule": "a case is one export+import round trip; distinct by (universe, target kind, path spec, outcome class)",
             "samples": samples, "failures": failures}
